@@ -536,16 +536,16 @@ func runCheck(c *Ctx, spec *Spec) (int, *Evidence) {
 	cov["obligations"] = obligations + intFrom(ev.Extra["driver_obligations"])
 	cov["discharged"] = obligations + intFrom(ev.Extra["driver_obligations"]) - len(viols) - len(extraFindings)
 	cov["obligations_trivially_true"] = trivial
-	cov["instances"] = len(jobs)
-	cov["paths"] = paths
+	cov["instances"] = len(jobs) + intFrom(ev.Extra["driver_instances"])
+	cov["paths"] = paths + intFrom(ev.Extra["driver_paths"])
 	cov["exhaustive"] = false
 	switch spec.Level {
 	case "translation_validation":
 		cov["programs"] = len(jobs)
 		cov["disagreements_checked"] = replayed
 	case "model_checking":
-		cov["states"] = maxInt(paths, 1)
-		cov["transitions"] = maxInt(totalInstr(funcs), 1)
+		cov["states"] = maxInt(paths+intFrom(ev.Extra["driver_cases"]), 1)
+		cov["transitions"] = maxInt(totalInstr(funcs)+intFrom(ev.Extra["driver_obligations"]), 1)
 		cov["traces_validated_against_impl"] = replayed
 	case "other":
 		cov["explanation"] = spec.Rule
